@@ -5,8 +5,8 @@ use multiboot2::{BootInformation, BootInformationHeader, LoadError};
 use multiboot2_common::MemoryError;
 
 const RESERVED: [u32; 3] = [0, 8, 0xFFFF_FFFF];
-const TYPW: [u32; 5] = [0, 1, 8, 0x0100_0000, 0xFFFF_FFFF];
-const SIZW: [u32; 6] = [8, 0, 7, 9, 16, 0xFFFF_FFFF];
+const TYPW: [u32; 8] = [0, 1, 8, 0x100, 0x1_0000, 0x0100_0000, 0x8000_0000, 0xFFFF_FFFF];
+const SIZW: [u32; 10] = [8, 0, 7, 9, 16, 0x108, 0x1_0008, 0x0100_0008, 0x8000_0008, 0xFFFF_FFFF];
 
 #[derive(Clone, Copy, PartialEq, Eq, Debug)]
 enum V {
@@ -94,7 +94,7 @@ fn run(ctx: &mut Ctx) {
     ctx.bound(
         "space",
         format!(
-            "null pointer; every total-size word 0..={} x reserved word {{0,8,0xFFFFFFFF}} x last 8 bytes of the declared region = (type word in {{0,1,8,0x01000000,0xFFFFFFFF}}) x (size word in {{8,0,7,9,16,0xFFFFFFFF}}); region placed flush against a PROT_NONE guard page",
+            "null pointer; every total-size word 0..={} x reserved word {{0,8,0xFFFFFFFF}} x last 8 bytes of the declared region = (type word in {{0,1,8,0x100,0x10000,0x01000000,0x80000000,0xFFFFFFFF}}) x (size word in {{8,0,7,9,16,0x108,0x10008,0x01000008,0x80000008,0xFFFFFFFF}}); for total sizes 16, 24 and 4096 additionally every 1-bit and 2-bit flip of a valid end tag; region placed flush against a PROT_NONE guard page",
             max_total
         ),
     );
@@ -110,6 +110,7 @@ fn run(ctx: &mut Ctx) {
             ctx.nontrivial();
         },
     );
+    flips(ctx, &arena);
     for total in 0..=max_total {
         let span = round8(total).max(8);
         let p = unsafe { arena.end().sub(span) };
@@ -141,6 +142,32 @@ fn run(ctx: &mut Ctx) {
                         }
                     });
                 }
+            }
+        }
+    }
+}
+
+fn flips(ctx: &mut Ctx, arena: &Arena) {
+    for total in [16usize, 24, 4096] {
+        let p = unsafe { arena.end().sub(total) };
+        for a in 0..64u32 {
+            for b in a..64u32 {
+                let mut tail: u64 = 8u64 << 32; // type 0, size 8 (little-endian words)
+                tail ^= 1u64 << a;
+                if b != a {
+                    tail ^= 1u64 << b;
+                }
+                let describe = || J::obj().set("total_size_word", total).set("last8_bytes", format!("{:016x} (valid end tag with bit {} and bit {} flipped)", tail, a, b));
+                ctx.leaf(describe, |ctx| {
+                    let region: &mut [u8] = unsafe { std::slice::from_raw_parts_mut(p, total) };
+                    region[total - 8..].copy_from_slice(&tail.to_le_bytes());
+                    wr32(region, 0, total as u32);
+                    wr32(region, 4, 0);
+                    let expected = load_verdict(region, total);
+                    observe(ctx, p, expected, total);
+                    ctx.state_direct();
+                    ctx.nontrivial();
+                });
             }
         }
     }
